@@ -12,12 +12,14 @@ open Bisquitt Bisquitt.Sys
 
 def parseSysOp (ws : List String) : Option Sys.Op :=
   match ws with
-  | c :: "inject" :: t :: q :: p :: [] => do pure (.inject (← parseHex t) (← parseHex p) (← n8 q))
-  | c :: "burst" :: t :: q :: ps => do pure (.burst (← parseHex t) (← n8 q) (← ps.mapM parseHex))
+  | _ :: "inject" :: t :: q :: p :: [] => do pure (.inject (← parseHex t) (← parseHex p) (← n8 q))
+  | _ :: "burst" :: t :: q :: ps => do pure (.burst (← parseHex t) (← n8 q) (← ps.mapM parseHex))
   | c :: "sleepinject" :: d :: t :: q :: p :: [] =>
     do pure (.sleepInject c (← d.toNat?) (← parseHex t) (← parseHex p) (← n8 q))
   | c :: "publish" :: n :: q :: p :: [] => do pure (.api c (.publish (← parseHex n) (← n8 q) false (← parseHex p)))
+  | c :: "publishr" :: n :: q :: p :: [] => do pure (.api c (.publish (← parseHex n) (← n8 q) true (← parseHex p)))
   | c :: "publishpre" :: i :: q :: p :: [] => do pure (.api c (.publishPre (← n16 i) (← n8 q) false (← parseHex p)))
+  | c :: "publishprer" :: i :: q :: p :: [] => do pure (.api c (.publishPre (← n16 i) (← n8 q) true (← parseHex p)))
   | c :: rest => (parseApi rest).map fun a => .api c a
   | [] => none
 
